@@ -894,3 +894,113 @@ def rule_empty_request_tested(ctx):
                 ctx.violated("EMPTYREQ", key, f.where(line), "this loop transfers one element with NCvario before it tests its stop condition, and nothing ahead of it turns away a request whose count is 0: an empty strided request still writes (or reads) one element")
     ctx.floor("EMPTYREQ", 1, n, "(transfer loops without an entry condition)")
     return n
+
+
+def rule_api_name_set(ctx):
+    """APINAME (C03): the netCDF core decides one thing by the name of the API routine that is running: NCcoordck lets a *netCDF*
+    call that reaches beyond the records of an unlimited variable grow the variable (fill records are written and the call
+    succeeds), while for an SD call the same request fails — it asks `nc_API(cdf_routine_name)`.  `cdf_routine_name` is a global
+    that every entry point sets; an SD entry point that can reach NCcoordck without setting it runs under whatever name the
+    previous call left (ncopen, ncclose, ncsetfill ...), and an out-of-extent SDreaddata then succeeds *and* grows the data set.
+    Every public SD routine from which NCcoordck is reachable stores a string literal into cdf_routine_name before its first
+    call that can reach it."""
+    from .facts import kind, strip, walk, render
+    prog = ctx.prog
+    callers = prog.callers()
+    reach = {"H4_NCcoordck", "NCcoordck"}
+    frontier = set(reach)
+    for _ in range(5):
+        nxt = set()
+        for t in frontier:
+            for f, _c in callers.get(t, []):
+                if f.rel.startswith("mfhdf/src/") and f.name not in reach:
+                    nxt.add(f.name)
+        reach |= nxt
+        frontier = nxt
+    n = 0
+    for f in prog.lib_funcs():
+        if not f.rel.endswith("mfhdf/src/mfsd.c") or f.name not in reach or not prog.is_public(f.name):
+            continue
+        n += 1
+        key = "APINAME:%s" % f.name
+        set_line = None
+        for _b, _i, s, x in f.nodes(True):
+            if x[0] == "asg" and x[1] == "=" and kind(strip(x[2])) == "var" and strip(x[2])[1] == "cdf_routine_name" and kind(strip(x[3])) == "str":
+                set_line = s.get("l", f.line) if set_line is None else min(set_line, s.get("l", f.line))
+        first_call = None
+        for _b, _i, s, c in f.calls():
+            if c[1] in reach:
+                l = s.get("l", f.line)
+                first_call = l if first_call is None else min(first_call, l)
+        if set_line is not None and (first_call is None or set_line <= first_call):
+            ctx.holds("APINAME", key, f.where(set_line), "sets cdf_routine_name before the first call that can reach NCcoordck", nontrivial=True)
+        else:
+            ctx.violated("APINAME", key, f.where(first_call), "%s can reach NCcoordck without having stored its own name in cdf_routine_name: the SD/netCDF decision about reading beyond the last record is made with the name an earlier call left behind" % f.name)
+    ctx.floor("APINAME", 3, n, "(public SD routines from which NCcoordck is reachable)")
+    return n
+
+
+BYTE_FIELDS = {"szof", "len", "HDFsize", "xszof"}
+BYTE_CALLS = {"NC_typelen", "H4_NC_typelen", "DFKNTsize", "NC_xtypelen", "H4_NC_xtypelen", "strlen"}
+
+
+def rule_fill_length_in_bytes(ctx):
+    """FILLBYTES (C03): NC_arrayfill(buffer, len, type) stores the type's default fill value into `len` BYTES of the buffer.  Callers
+    know how many *elements* they have to fill; each call must hand over a byte length — an expression that contains an element
+    size (`->szof`, `->len`, sizeof, NC_typelen/DFKNTsize) or a local that was computed from one.  Handed an element count, only
+    the first count/size elements get the fill value and the rest of the caller's buffer is returned as it was."""
+    from .facts import kind, strip, walk, render, is_int
+    prog = ctx.prog
+    n = 0
+    occ = {}
+    for f in prog.lib_funcs():
+        if not f.rel.startswith("mfhdf/src/"):
+            continue
+        calls = [(s, c) for _b, _i, s, c in f.calls() if c[1] in ("NC_arrayfill", "H4_NC_arrayfill") and len(c[3]) > 1]
+        if not calls:
+            continue
+        prov = {}
+
+        def bytes_in(e):
+            for y in walk(e, True):
+                if y[0] == "mem" and y[2] in BYTE_FIELDS:
+                    return True
+                if y[0] == "call" and y[1] in BYTE_CALLS:
+                    return True
+                if y[0] in ("sizeof", "szof"):
+                    return True
+                if y[0] == "var" and prov.get(y[1]):
+                    return True
+                if y[0] == "int" and len(y) > 2 and isinstance(y[2], str) and "sizeof" in y[2]:
+                    return True
+            return False
+
+        asg = []
+        for _b, _i, _s, x in f.nodes(True):
+            if x[0] == "asg" and kind(strip(x[2])) == "var":
+                asg.append((strip(x[2])[1], x[3]))
+            elif x[0] == "decl":
+                for d in x[1]:
+                    if d[2] is not None:
+                        asg.append((d[0], d[2]))
+        for _ in range(4):
+            for v, rhs in asg:
+                if bytes_in(rhs):
+                    prov[v] = True
+        for s, c in calls:
+            a = c[3][1]
+            n += 1
+            key = "FILLBYTES:%s" % f.name
+            occ[key] = occ.get(key, 0) + 1
+            if occ[key] > 1:
+                key += "#%d" % occ[key]
+            line = s.get("l", f.line)
+            r = render(a)
+            if is_int(a):
+                ctx.holds("FILLBYTES", key, f.where(line), "a constant: the size of a fixed buffer (folded sizeof)", nontrivial=False)
+            elif bytes_in(a) or "sizeof" in r:
+                ctx.holds("FILLBYTES", key, f.where(line), "`%s` contains an element size" % r[:50], nontrivial=True)
+            else:
+                ctx.violated("FILLBYTES", key, f.where(line), "NC_arrayfill is handed `%s`, which contains no element size: it is an element count, so only a fraction of the buffer receives the fill value" % r[:50])
+    ctx.floor("FILLBYTES", 6, n, "(NC_arrayfill calls)")
+    return n
